@@ -141,6 +141,10 @@ def describe(path, damaged):
     data = open(path, "rb").read()
     img = sqfsimg.Image(data)
     files = [i.ref for i in img.inodes.values() if i.type == sqfsimg.T_FILE]
+    # the handful of files with an interesting layout (several blocks, holes, zero tails, fragments, duplicates) must not drown
+    # among hundreds of tiny ones: they are listed thirty times
+    special = [i.ref for p_, i in img.paths.items() if i.type == sqfsimg.T_FILE and not p_.startswith(b"many/") and not p_.startswith(b"p")]
+    files = files + special * 30
     dirs = [i.ref for i in img.inodes.values() if i.type == sqfsimg.T_DIR]
     blocks = sorted(p - img.sb["inode_table"] for p in img.table_blocks["inode"])
     sizes = {i.ref: (i.size, len(i.block_sizes)) for i in img.inodes.values() if i.type == sqfsimg.T_FILE}
@@ -252,7 +256,7 @@ def check_case(case, opts):
         of = os.path.join(sc, "ops.txt")
         with open(of, "w", encoding="latin-1") as fh:
             fh.write("\n".join(lines) + "\n")
-        r = vcommon.run([opts["bin"], P["path"], of], timeout=120)
+        r = vcommon.run([opts["bin"], P["path"], of], timeout=120, env=None if P["damaged"] else {"VERIF_C10_STRICT": "1"})
         out = r.out.decode(errors="replace")
         if r.timeout:
             raise Violation("reader history does not terminate on %s" % os.path.basename(P["path"]), "\n".join(lines), sig="hang")
